@@ -62,15 +62,21 @@ K_FD = "C04/hmc/finite-diff-outside-bounds"
 
 
 # ------------------------------------------------------------------ the implementation
+_IMPL = {}
+
+
 def impl():
+    if _IMPL:
+        return _IMPL
     from inference.mcmc.utilities import Bounds
     from inference.mcmc.gibbs import Parameter, GibbsChain
     from inference.mcmc.pca import PcaChain
     from inference.mcmc.hmc import HamiltonianChain
     from inference.mcmc.ensemble import EnsembleSampler
-    return {"Bounds": Bounds, "Parameter": Parameter, "GibbsChain": GibbsChain,
-            "PcaChain": PcaChain, "HamiltonianChain": HamiltonianChain,
-            "EnsembleSampler": EnsembleSampler}
+    _IMPL.update({"Bounds": Bounds, "Parameter": Parameter, "GibbsChain": GibbsChain,
+                  "PcaChain": PcaChain, "HamiltonianChain": HamiltonianChain,
+                  "EnsembleSampler": EnsembleSampler})
+    return _IMPL
 
 
 def fr(x):
@@ -292,6 +298,10 @@ def oracle_leap(case, out):
                        f"reversed exactly at the walls)")
         if abs(r) != abs(fr(out["r0"][i])):
             bad.append(f"coordinate {i}: |momentum| changed without a force")
+        # away from the walls the momentum factor is the slope of the fold at the free end point
+        if ((free - lo) / (hi - lo)).denominator != 1 and r != fr(out["r0"][i]) * sign_spec(lo, hi, free):
+            bad.append(f"coordinate {i}: momentum {float(r)!r} after {case['steps']} step(s), but the free "
+                       f"trajectory crosses {math.floor((free - lo) / (hi - lo))} wall(s) from r0 = {out['r0'][i]!r}")
     return bad
 
 
@@ -319,22 +329,22 @@ def coq_op(op):
 KIND = {"standard_proposal": 0, "abs_proposal": 1, "boundary_proposal": 2}
 
 
-def apply_param_op(p, op):
-    """one selector call on a real Parameter; returns (parameter, warned)."""
+def apply_param_op(p, op, wl):
+    """one selector call on a real Parameter inside a recording warnings context
+    `wl`; returns (parameter, warned)."""
     P = impl()["Parameter"]
-    with warnings.catch_warnings(record=True) as wl:
-        warnings.simplefilter("always")
-        if op[0] == "sb":
-            p.set_boundaries(float(op[1]), float(op[2]))
-        elif op[0] == "rm":
-            p.remove_boundaries()
-        elif op[0] == "nn":
-            p.non_negative = op[1]
-        elif op[0] == "nn_bad":
-            p.non_negative = 1
-        else:
-            p = P.load(p.get_items(0), 0)
-    return p, len(wl) > 0
+    n0 = len(wl)
+    if op[0] == "sb":
+        p.set_boundaries(float(op[1]), float(op[2]))
+    elif op[0] == "rm":
+        p.remove_boundaries()
+    elif op[0] == "nn":
+        p.non_negative = op[1]
+    elif op[0] == "nn_bad":
+        p.non_negative = 1
+    else:
+        p = P.load(p.get_items(0), 0)
+    return p, len(wl) > n0
 
 
 class History:
@@ -390,21 +400,21 @@ def observe_param(ops, k):
     sigma, z = draw_for(k)
     p = P(value=S0, sigma=sigma)
     h = History()
-    for op in ops:
-        p, warned = apply_param_op(p, op)
-        h.note(op, warned)
-    SR.preset = [z]
-    SR.log.clear()
-    p.rng = SR
-    p.try_count = 0
-    p.sigma = sigma
-    with warnings.catch_warnings():
-        warnings.simplefilter("ignore")
+    with warnings.catch_warnings(record=True) as wl:
+        warnings.simplefilter("always")
+        for op in ops:
+            p, warned = apply_param_op(p, op, wl)
+            h.note(op, warned)
+        SR.preset = [z]
+        SR.log.clear()
+        p.rng = SR
+        p.try_count = 0
+        p.sigma = sigma
         y = float(p.proposal())
     x = fr(p.samples[-1]) + fr(sigma) * z
     name = getattr(p.proposal, "__name__", "?")
     obs = (bool(p.bounded), bool(p._non_negative), fr(p.lower), fr(p.upper), fr(p.width),
-           KIND.get(name, 9), x, fr(y) if math.isfinite(y) else None)
+           KIND.get(name, -1), x, fr(y) if math.isfinite(y) else None)
     return obs, h, p
 
 
@@ -497,7 +507,7 @@ def observe_chain(ops, k):
         y = float(p.proposal())
     x = fr(p.samples[-1]) + fr(sigma) * z
     obs = (bool(p.bounded), bool(p._non_negative), fr(p.lower), fr(p.upper), fr(p.width),
-           KIND.get(getattr(p.proposal, "__name__", "?"), 9), x, fr(y) if math.isfinite(y) else None)
+           KIND.get(getattr(p.proposal, "__name__", "?"), -1), x, fr(y) if math.isfinite(y) else None)
     # [R] a few real steps with a flat posterior (every proposal accepted) and a huge sigma
     bad = []
     p0 = ch.params[0]
@@ -734,7 +744,18 @@ def run(rep: C.Report, tier: str) -> int:
             raw_violation(key, what, replay, found_input)
     rep.violation = violation_once
     C.clean_gen(PROP)
-    C.prove_and_audit(rep, PROP, THEOREMS)
+    info = C.prove_and_audit(rep, PROP, THEOREMS)
+    if info is not None:
+        # the sampler-model theorems (every evaluation point of PCA / HMC / ensemble inside the box)
+        extra = ["C04_pca_step_inside", "C04_hmc_step_inside", "C04_ens_iteration_inside"]
+        try:
+            a2 = C.coq_audit(PROP + "_samplers", extra, "IT.Properties.C04Samplers")
+            rep.obligation(True, len(extra))
+            rep.coverage["sampler_model_audit"] = a2
+        except C.ProofFailure as e:
+            rep.obligation(False, len(extra))
+            rep.violation("C04/proof", f"proof obligation no longer checks: {e.what}",
+                          {"theorem_or_correspondence": e.what, "log": e.log[-1000:]}, False)
     files, meta = [], []        # meta[i] = (group, list of case keys)
 
     lap('proofs+audit')
@@ -969,7 +990,10 @@ def run(rep: C.Report, tier: str) -> int:
     # ---- selector disagreements: look for a concrete failing input
     if sel_fail or hist_bad:
         matches_pinned = sel_files_ok and not sel_fail_pinned
-        cands = sorted([ops for ops, _ in hist_bad] + sel_fail, key=len)
+        # shortest first; among equals prefer sequences without the calls the repaired code refuses
+        def rank(ops):
+            return (len(ops), sum(1 for o in ops if o[:3] == ("sb", -3, 0) or o[0] == "nn_bad"))
+        cands = sorted([ops for ops, _ in hist_bad] + sel_fail, key=rank)
         found = None
         for ops in cands[:400]:
             bad, info = oracle_selector(ops)
@@ -1033,6 +1057,16 @@ def run(rep: C.Report, tier: str) -> int:
     lap('runtime-R')
     rep.coverage['violations_per_key'] = dict(seen_keys)
     rep.coverage['timing_s'] = timing
+    rep.coverage["labels"] = {
+        "T_proved_for_all_inputs": THEOREMS,
+        "X_exact_correspondence_inside_Coq": ["Bounds.reflect / reflect_momenta (dyadic arrays)",
+                                              "Parameter.boundary_proposal / abs_proposal (scripted draw)",
+                                              "HamiltonianChain.bounded_leapfrog with zero force",
+                                              "Parameter selector, all call orders <= 5; GibbsChain API + .npz <= 3/4"],
+        "R_runtime_tests_only": ["recording posterior on GibbsChain / PcaChain / HamiltonianChain / EnsembleSampler "
+                                 "runs (4 ulp tolerance)", "Bounds.reflect on arbitrary doubles (4 ulp tolerance)",
+                                 "GibbsChain.take_step after each API call sequence"],
+    }
     rep.assumptions = [
         "exact comparisons use dyadic inputs on which every + - * // % of the code is exact in double precision",
         "Bounds.width = upper - lower is passed to the model as w (computed by the code, exact on the inputs used)",
